@@ -164,8 +164,8 @@ CellAt(j, i) == rng[((i + j - 2) % Len(rng)) + 1]
 \* the (range, criterion) pairs of the ...IFS call
 Pairs == [j \in 1..Len(crits) |-> <<RotBy(rng, j - 1), crits[j]>>]
 
-\* ...IF form: the positions of one range selected by one criterion;
-\* b = TRUE: may be selected, b = FALSE.. see MustIF
+\* ...IF form: the positions of one range q that one criterion may select
+\* (TRUE is an allowed answer) and must select (TRUE is the only answer)
 MayIF(q, cr)  == {i \in DOMAIN q : TRUE \in Matches(q[i], cr)}
 MustIF(q, cr) == {i \in DOMAIN q : Matches(q[i], cr) = {TRUE}}
 
@@ -238,6 +238,21 @@ AddCrit(c) ==
 Next == \/ \E x \in CellPool : AppendCell(x)
         \/ \E c \in (IF crits = <<>> THEN CritPool ELSE Crit2Pool) : AddCrit(c)
 Spec == Init /\ [][Next]_vars
+
+\* the criteria pools stay inside the grammar the relation is defined for: a
+\* text operand never looks like a number (it would be a numeric criterion),
+\* ordering operators never carry wildcards (Excel's reading is not
+\* documented), ~ only escapes ? * ~, operators are the seven known ones
+ASSUME \A cr \in CritPool \cup Crit2Pool :
+         /\ cr[1] \in {"", "=", "<>"} \cup Ordering
+         /\ IsNum(cr[2]) \/ IsTxt(cr[2])
+         /\ IsTxt(cr[2]) =>
+              LET t == cr[2][2] IN
+              /\ ~NumericLooking(t)
+              /\ cr[1] \in Ordering => (~HasWildcard(t) /\ t # <<>>)
+              /\ \A i \in DOMAIN t : t[i] = "~" =>
+                    \/ (i < Len(t) /\ t[i + 1] \in {"?", "*", "~"})
+                    \/ (i > 1 /\ t[i - 1] = "~")
 
 TypeOK == /\ rng \in Seq(CellPool) /\ Len(rng) <= MaxCells
           /\ crits \in Seq(CritPool \cup Crit2Pool) /\ Len(crits) <= 3
